@@ -224,6 +224,28 @@ def run(ctx):
     r5.instances = r5.obligations = n
     r5.discharged = n - len(r5.violations)
     r5.samples.append({"call_sites_examined": n, "reader_roots": roots})
+    # ---- R6 the readers report what their sub-readers report
+    r6 = chk.rule("R6-reader-errors-are-reported", "in every function reachable from Response::parse that returns Result: the Err of a crate function it calls (established by is_err / match / ?) does not reach an Ok return on a feasible path - an unknown status, a mismatched reason phrase, a broken multipart structure found by a sub-reader is the caller's Err too (reviewed recoveries: tables/error_recovery.json)", floor=8)
+    from .parse_common import swallowed_errors
+    rec = {(e["fn"], e["callee"]): e for e in ctx.table("error_recovery")["recoveries"]}
+    rseen = G.reachable([n for n in ("response::Response::parse", "response::Response::_parse_response") if n in F.fns])
+    for fnn in sorted(rseen):
+        fn0 = F.fns.get(fnn)
+        if fn0 is None or fn0.crate != "rws" or fn0.kind in ("Promoted", "Closure") or not (fn0.ret or "").startswith("std::result::Result<"):
+            continue
+        sw = swallowed_errors(ctx, fn0)
+        bad = {(c, bid) for c, line, bid in sw}
+        kk = 0
+        for bid, t in fn0.calls():
+            c = callee_name(t) or ""
+            g2 = F.fns.get(c)
+            if g2 is None or g2.crate != "rws" or not (g2.ret or "").startswith("std::result::Result<"):
+                continue
+            ok = (c, bid) not in bad or (fnn, c) in rec
+            r6.instance({"fn": fnn, "callee": c, "line": t["span"]["line"], "err_reaches_ok_return": (c, bid) in bad, "reviewed_recovery": (fnn, c) in rec} if (not ok or (c, bid) in bad) else None, ok)
+            if not ok:
+                kk += 1
+                r6.violate("C15|R6|%s|%s|%d" % (fnn, c, kk), "%s: the Err of %s (line %d) can reach an Ok return: what the sub-reader rejects is accepted by the caller" % (fnn, c, t["span"]["line"]), t["span"]["file"], t["span"]["line"], fnn)
     chk.assumptions += ["a header pushed onto a value other than the serialised one is lost (the serialiser works on a clone taken before)"]
     chk.undecided = ["equality of parsed and original status, headers, ranges and bodies (round trip) for concrete values"]
     return chk.finish()
